@@ -784,19 +784,36 @@ def c17_allocate(env):
         inserts = count_calls(p, r"VacantEntry::<.*>::insert$")
         okv = z3.is_true(z3.simplify(ok))
         key_any = call_result(p, r"VacantEntry::<.*>::key$")
+        if key_any is None:
+            key_any = call_result(p, r"^Slab::<.*>::insert$")
 
         def replay_alloc(m, d=d, mx=mx, key_any=key_any):
+            # the model's own values when they are small, plus directed probes around the limit
             st0, mxv = model_value(m, d), model_value(m, mx)
-            k = min(model_value(m, key_any), 40) if key_any is not None else 0
-            opened = st0 not in (0, 1, 2, 3, 11, 12, 13)
-            want_ok = opened and k <= mxv
-            return f"alloc {st0} {mxv} {k}", (lambda js: js.get("panic") or js["ok"] != want_ok or (js["ok"] and (js["channel"] > mxv or js["channel"] != k or js["sessions_after"] != js["sessions_before"] + 1)) or (not js["ok"] and js["sessions_after"] != js["sessions_before"]))
+            k0 = model_value(m, key_any) if key_any is not None else 0
+            probes = [(st0, mxv, k0)] if (k0 <= 64 and mxv <= 64) else []
+            probes += [(9, 0, 1), (9, 2, 3), (9, 2, 2), (9, 0, 0), (st0, 3, 1)]
+            cmds = [f"alloc {a} {b} {c}" for a, b, c in probes]
+
+            def bad(outs):
+                for (a, b, c), js in zip(probes, outs):
+                    opened = a not in (0, 1, 2, 3, 11, 12, 13)
+                    want_ok = opened and c <= b
+                    if js.get("panic") or js["ok"] != want_ok:
+                        return True
+                    if js["ok"] and (js["channel"] > b or js["channel"] != c or js["sessions_after"] != js["sessions_before"] + 1):
+                        return True
+                    if not js["ok"] and js["sessions_after"] != js["sessions_before"]:
+                        return True
+                return False
+
+            return cmds, bad
 
         if okv:
             ch = p.ret[("as", "Ok")][0][0]
-            key = call_result(p, r"VacantEntry::<.*>::key$")
+            key = key_any
             if key is None:
-                raise mir.Unsupported("call to VacantEntry::key not found")
+                raise mir.Unsupported("neither VacantEntry::key nor Slab::insert found on the allocating path")
             o.prove(f"path{i}:channel<=channel-max", hyp + p.cond, z3.ULE(ch, mx), replay=replay_alloc)
             o.prove(f"path{i}:channel-is-vacant-key", hyp + p.cond, z3.ZeroExt(48, ch) == key, replay=replay_alloc)
             o.prove(f"path{i}:recorded", hyp + p.cond, z3.BoolVal(inserts == 1), replay=replay_alloc)
@@ -1181,3 +1198,274 @@ def c12_engine_close(env):
 
 
 REGISTRY["C12"].append(c12_engine_close)
+
+
+# ======================================================================================
+# C06: re-chunking of the encoded bytes by Transport::start_send;  C15: frame-size setters
+# ======================================================================================
+
+BV64 = lambda n: z3.BitVec(n, 64)  # noqa: E731
+
+
+def c06_start_send_chunks(env):
+    o = Obligation("c06_start_send_chunks", "C06")
+    o.desc = "Transport::start_send hands the length-delimited layer a sequence of chunks that are each non-empty (an empty chunk would be written as a frame of size 4, which is malformed) and at most the encoder's max-frame-length, and together exactly the encoded bytes"
+    fn = env.fn(r"^transport::<impl at [^>]*>::start_send$", sig=r"amqp::Frame")
+    o.functions = [fn.name]
+    o.bounds = ["encoded length E and max-frame-length M symbolic, 1 <= M < 2^16, 4 <= E <= 3*M (every AMQP frame has its 4 header bytes; up to three chunks)"]
+    o.assumes = ["BytesMut::len / split_to / freeze per their documented contract (split_to(n) returns the first n bytes and leaves the rest)"]
+    ex = env.executor(max_visits=4)
+    E_, M_ = BV64("encoded.len"), BV64("max_frame_length")
+    sent = []
+
+    def lens(st):
+        return st.locals.setdefault("@buf", mir.Agg("buf"))
+
+    def m_new(ex_, st, callee, args, argvals, dty):
+        a = mir.Agg("BytesMut")
+        a[0] = z3.BitVecVal(0, 64)
+        return a
+
+    def m_encode(ex_, st, callee, args, argvals, dty):
+        dst = argvals[2]
+        cont, key = ex_.resolve(st, list(dst.path))
+        cont[key][0] = E_
+        r = mir.Agg("Result")
+        r["#d"] = z3.BitVec(f"encode.result#{ex_.ctx.n}", 64)
+        ex_.ctx.n += 1
+        return r
+
+    def m_len(ex_, st, callee, args, argvals, dty):
+        cont, key = ex_.resolve(st, list(argvals[0].path))
+        return cont[key][0]
+
+    def m_split(ex_, st, callee, args, argvals, dty):
+        cont, key = ex_.resolve(st, list(argvals[0].path))
+        n = argvals[1]
+        st.obligations.append(("split_to within bounds", z3.ULE(n, cont[key][0]), list(st.cond)))
+        cont[key][0] = cont[key][0] - n
+        a = mir.Agg("BytesMut")
+        a[0] = n
+        return a
+
+    def m_freeze(ex_, st, callee, args, argvals, dty):
+        a = mir.Agg("Bytes")
+        a[0] = argvals[0][0]
+        return a
+
+    def m_send(ex_, st, callee, args, argvals, dty):
+        w = st.locals.setdefault("@sent", mir.Agg("sent"))
+        w[len(w)] = argvals[1][0]
+        r = mir.Agg("Result")
+        r["#d"] = z3.BitVec(f"send.result#{ex_.ctx.n}", 64)
+        ex_.ctx.n += 1
+        return r
+
+    ex.models = [
+        (r"^BytesMut::new$", m_new),
+        (r"Encoder<amqp::Frame>>::encode$", m_encode),
+        (r"^BytesMut::len$", m_len),
+        (r"^BytesMut::split_to$", m_split),
+        (r"^BytesMut::freeze$", m_freeze),
+        (r"Sink<bytes::Bytes>>::start_send$", m_send),
+        (r"LengthDelimitedCodec::max_frame_length$", lambda ex_, st, callee, args, argvals, dty: M_),
+    ]
+    paths = ex.run(fn, {"_1": mir.Agg("pin"), "_2": mir.Agg("frame")})
+    hyp = ex.assumptions + [z3.UGE(M_, 1), z3.UGE(E_, 4), z3.ULE(E_, 3 * M_), z3.ULT(M_, 1 << 16)]
+    n = 0
+
+    def replay(m):
+        mm, ee = model_value(m, M_), model_value(m, E_)
+        # natively: an Open frame whose encoding is exactly the encoder's max-frame-length (508 for max-frame-size 512)
+        return "chunks 508", (lambda js: js.get("panic") or js["empty_chunks"] > 0 or js["oversized"] > 0 or js["total"] != js["encoded"])
+
+    for i, p in enumerate(paths):
+        if p.end != "return":
+            continue
+        w = p.locals.get("@sent")
+        if w is None:
+            continue
+        n += 1
+        chunks = [w[k] for k in sorted(w.keys())]
+        # only paths on which every send succeeded deliver the whole frame
+        for j, c in enumerate(chunks):
+            o.prove(f"path{i}:chunk{j}-non-empty", hyp + p.cond, z3.UGT(c, 0), replay=replay)
+            o.prove(f"path{i}:chunk{j}<=max-frame-length", hyp + p.cond, z3.ULE(c, M_), replay=replay)
+        if p.ret is not None and isinstance(p.ret, mir.Agg) and p.end == "return":
+            total = chunks[0]
+            for c in chunks[1:]:
+                total = total + c
+            all_ok = [c_[3]["#d"] == 0 for c_ in p.calls if c_[0].endswith("Sink<bytes::Bytes>>::start_send") and isinstance(c_[3], mir.Agg)]
+            o.prove(f"path{i}:chunks-are-the-encoded-bytes", hyp + p.cond + all_ok, total == E_, replay=replay)
+        for (d, ok, c) in p.obligations:
+            o.prove(f"path{i}:{d}", hyp + c, ok)
+    o.cover("paths that send", [z3.BoolVal(n > 0)])
+    return [o]
+
+
+def c15_frame_size_setters(env):
+    out = []
+    for which in ("set_encoder_max_frame_size", "set_decoder_max_frame_size"):
+        o = Obligation(f"c15_{which}", "C15")
+        o.desc = f"Transport::{which} is called with the max-frame-size of the PEER's open: for every value (including 0..7) it must not overflow, and the encoder's max-frame-length it installs must leave room for the 4 frame-header bytes (FrameEncoder::new subtracts 4 again)"
+        fn = env.fn(rf"^transport::<impl at [^>]*>::{which}$")
+        o.functions = [fn.name]
+        o.bounds = ["every 64-bit value of the peer's max-frame-size"]
+        ex = env.executor()
+        x = BV64("peer.max_frame_size")
+        captured = []
+        ex.models = [(r"LengthDelimitedCodec::set_max_frame_length$", lambda ex_, st, callee, args, argvals, dty: (captured.append((argvals[1], list(st.cond))), mir.Agg("unit"))[1])]
+        paths = ex.run(fn, {"_1": mir.Ref(("@self",), True), "@self": mir.Agg("transport"), "_2": x})
+
+        def replay(m, which=which):
+            return f"setsize {1 if 'encoder' in which else 0} {model_value(m, x)}", (lambda js: js.get("panic") is True)
+
+        n = 0
+        for i, p in enumerate(paths):
+            if p.end != "return":
+                continue
+            n += 1
+            for (d, ok, c) in p.obligations:
+                o.prove(f"path{i}:{d}", ex.assumptions + c, ok, replay=replay)
+        for j, (val, cond) in enumerate(captured):
+            if "encoder" in which:
+                o.prove(f"installed-length-leaves-room-for-the-header#{j}", ex.assumptions + cond, z3.UGE(val, 8), replay=replay)
+        o.cover("paths", [z3.BoolVal(n > 0 and len(captured) > 0)])
+        out.append(o)
+    return out
+
+
+def c10_reader(env):
+    o = Obligation("c10_reader_contiguous", "C10")
+    o.desc = "the chained-buffer reader behind a multi-frame delivery (ByteReader::read): one read copies from consecutive chunks into consecutive, non-overlapping, gap-free ranges of the destination starting at 0, never past either side, and returns min(destination length, bytes buffered)"
+    fn = env.fn(r"^util::<impl at [^>]*>::read$", sig=r"ByteReader<bytes::Bytes>")
+    o.functions = [fn.name]
+    o.bounds = ["3 chunks of symbolic lengths (each < 2^32, empty chunks included), destination of symbolic length < 2^32; one read"]
+    o.assumes = ["bytes::Buf::remaining / split_to / copy_to_slice and slice indexing per their documented contracts (copy_to_slice fills the whole destination sub-slice and advances the source)"]
+    ex = env.executor(max_visits=6)
+    D = BV64("dst.len")
+    L = [BV64(f"chunk{i}.len") for i in range(3)]
+
+    def init():
+        dst = mir.Agg("dst")
+        dst["#len"] = D
+        loc = {"_1": mir.Ref(("@reader",), True), "@reader": mir.Agg("reader"), "_2": mir.Ref(("@dst",), True), "@dst": dst}
+        for i in range(3):
+            c = mir.Agg(f"chunk{i}")
+            c[0] = L[i]
+            loc[f"@chunk{i}"] = c
+        w = mir.Agg("world")
+        w["next"] = 0
+        w["writes"] = ()
+        loc["@world"] = w
+        return loc
+
+    def m_next(ex_, st, callee, args, argvals, dty):
+        w = st.locals["@world"]
+        r = mir.Agg("Option")
+        if w["next"] < 3:
+            r["#d"] = z3.BitVecVal(1, 64)
+            sub = mir.Agg("Some")
+            sub[0] = mir.Ref((f"@chunk{w['next']}",), True)
+            r[("as", "Some")] = sub
+            w["next"] = w["next"] + 1
+        else:
+            r["#d"] = z3.BitVecVal(0, 64)
+        return r
+
+    def chunk_of(ex_, st, v):
+        # &&mut Bytes / &mut Bytes -> the chunk aggregate
+        while isinstance(v, mir.Ref):
+            cont, key = ex_.resolve(st, list(v.path))
+            v2 = cont.get(key)
+            if isinstance(v2, mir.Ref):
+                v = v2
+                continue
+            return v2
+        return v
+
+    def m_remaining(ex_, st, callee, args, argvals, dty):
+        return chunk_of(ex_, st, argvals[0])[0]
+
+    def m_split_to(ex_, st, callee, args, argvals, dty):
+        c = chunk_of(ex_, st, argvals[0])
+        n = argvals[1]
+        st.obligations.append(("split_to within the chunk", z3.ULE(n, c[0]), list(st.cond)))
+        c[0] = c[0] - n
+        a = mir.Agg("Bytes")
+        a[0] = n
+        return a
+
+    def m_index(ex_, st, callee, args, argvals, dty):
+        rng = argvals[1]
+        a = mir.Agg("subslice")
+        kind = rng.label if isinstance(rng, mir.Agg) else ""
+        if kind == "Range":
+            start, end = rng[0], rng[1]
+        elif kind == "RangeFrom":
+            start, end = rng[0], D
+        elif kind == "RangeTo":
+            start, end = z3.BitVecVal(0, 64), rng[0]
+        elif kind == "RangeFull" or "RangeFull" in callee:
+            start, end = z3.BitVecVal(0, 64), D
+        else:
+            raise mir.Unsupported(f"slice index with {kind or callee[:60]}")
+        st.obligations.append(("slice index in bounds", z3.And(z3.ULE(start, end), z3.ULE(end, D)), list(st.cond)))
+        a["start"], a["end"] = start, end
+        return a
+
+    def m_copy(ex_, st, callee, args, argvals, dty):
+        src = chunk_of(ex_, st, argvals[0])
+        sub = argvals[1]
+        n = sub["end"] - sub["start"]
+        st.obligations.append(("copy_to_slice: source holds enough bytes", z3.UGE(src[0], n), list(st.cond)))
+        src[0] = src[0] - n
+        w = st.locals["@world"]
+        w["writes"] = w["writes"] + ((sub["start"], sub["end"]),)
+        return mir.Agg("unit")
+
+    ex.models = [
+        (r"IterMut<'_, bytes::Bytes> as Iterator>::next$", m_next),
+        (r"as Buf>::remaining$", m_remaining),
+        (r"^bytes::Bytes::split_to$", m_split_to),
+        (r"as IndexMut<(std::ops::)?Range\w*(<usize>)?>>::index_mut$", m_index),
+        (r"as Buf>::copy_to_slice$", m_copy),
+    ]
+    paths = ex.run(fn, init())
+    small = [z3.ULT(x, 1 << 32) for x in L + [D]]
+    hyp = ex.assumptions + small
+    total = L[0] + L[1] + L[2]
+    n = 0
+
+    def replay(m):
+        d, ls = model_value(m, D), [model_value(m, x) for x in L]
+        cap = lambda v: min(v, 12)  # noqa: E731
+        return f"reader {cap(d)} {cap(ls[0])} {cap(ls[1])} {cap(ls[2])}", (lambda js: js.get("panic") or not js["prefix_ok"])
+
+    def replay_probe(m):
+        # directed native probe: one read draining two chunks and part of a third
+        return "reader 7 2 2 3", (lambda js: js.get("panic") or not js["prefix_ok"])
+
+    for i, p in enumerate(paths):
+        if p.end != "return":
+            if p.end.startswith("loop-bound"):
+                raise mir.Unsupported("reader loop not exhausted within the unrolling bound")
+            continue
+        n += 1
+        writes = p.locals["@world"]["writes"]
+        pos = z3.BitVecVal(0, 64)
+        for j, (s_, e_) in enumerate(writes):
+            o.prove(f"path{i}:write{j}-continues-where-the-last-ended", hyp + p.cond, s_ == pos, replay=replay_probe)
+            pos = e_
+        ret = p.ret[("as", "Ok")][0]
+        o.prove(f"path{i}:returns-bytes-written", hyp + p.cond, ret == pos, replay=replay_probe)
+        o.prove(f"path{i}:returns-min(dst,buffered)", hyp + p.cond, ret == z3.If(z3.ULE(D, total), D, total), replay=replay)
+        for (d, ok, c) in p.obligations:
+            o.prove(f"path{i}:{d}", hyp + c, ok, replay=replay)
+    o.cover("paths", [z3.BoolVal(n > 0)])
+    return [o]
+
+
+REGISTRY.setdefault("C06", []).append(c06_start_send_chunks)
+REGISTRY.setdefault("C15", []).append(c15_frame_size_setters)
+REGISTRY.setdefault("C10", []).append(c10_reader)
